@@ -79,6 +79,10 @@ def constant(ev, dotted):
 def ext_getattr(ev, obj: ExtV, name, fr, node):
     d = obj.dotted
     if d.startswith("ufunc:"):
+        if name in ("__call__",):
+            return obj
+        if name in ("reduce", "accumulate", "outer", "at", "reduceat"):
+            return ExtV(d + ":" + name)
         if name == "nout":
             return Num(int(d.split(":")[3]))
         if name == "nin":
@@ -269,6 +273,8 @@ def binop(ev, op, a, b, node, fr):
         return ev.ite(a.cond, binop(ev, op, a.a, b, node, fr), binop(ev, op, a.b, b, node, fr))
     if isinstance(b, PhiV):
         return ev.ite(b.cond, binop(ev, op, a, b.a, node, fr), binop(ev, op, a, b.b, node, fr))
+    if isinstance(a, BoolV) and isinstance(b, BoolV) and isinstance(op, (ast.BitAnd, ast.BitOr, ast.BitXor)):
+        return BoolV({ast.BitAnd: a.b and b.b, ast.BitOr: a.b or b.b, ast.BitXor: a.b != b.b}[type(op)])
     if isinstance(a, BoolV):
         a = Num(int(a.b))
     if isinstance(b, BoolV):
@@ -751,6 +757,9 @@ def num_getattr(ev, obj: Num, name, fr, node):
         if obj.unit is not None:
             return Num(obj.unit, kind="quantity", unit=obj.unit, tag="unit")
         ev.unsupported("unit of a quantity whose representation unit is unknown", node, fr)
+    if name == "physical_type":
+        d = dim_of(obj.expr)
+        return StrV("dimensionless" if d == {} else ("unknown" if d is None else "dimensional"))
     if name == "T":
         return obj
     if name in ("mjd", "jd", "isot"):
@@ -986,6 +995,11 @@ def num_method(ev, x: Num, name, args, kwargs, fr, node):
         return x
     if name == "isclose":
         return CondV(sp.Ne(F["TClose"](x.expr, args[0].expr, *(a.expr for a in args[1:])), 0))
+    if name == "__array_ufunc__":
+        # falling back to astropy's Quantity machinery: a single-double result
+        ev.trace.append(("fallback", [str(a)[:60] for a in args[:2]], node))
+        exprs = [a.expr if isinstance(a, Num) else sp.Symbol("obj") for a in args[2:]]
+        return Num(sp.Function("QuantityFallback")(*exprs), kind="quantity", tag="single-double")
     if name == "indices" or name == "index":
         ev.unsupported(f"method {name} on a number", node, fr)
     if name == "is_integer":
@@ -1797,6 +1811,44 @@ def h_broadcast_to(ev, args, kwargs, fr, node):
     ev.unsupported("np.broadcast_to with symbolic shapes", node, fr)
 
 
+def h_quantity(ev, args, kwargs, fr, node, angle=False):
+    """u.Quantity(value, unit=None, copy=...) / Angle(value, unit, copy=...)"""
+    from .symeval import Raised
+    x = args[0]
+    unit = kwargs.get("unit", args[1] if len(args) > 1 else NONE)
+    cp = kwargs.get("copy", NONE)
+    ev.trace.append(("quantity-ctor", "Angle" if angle else "Quantity", x, cp, node))
+    if isinstance(x, (StrV, DictV)) or isinstance(x, NoneV):
+        raise Raised("TypeError", node, "cannot build a Quantity from this value")
+    if isinstance(x, (ListV, TupleV)):
+        x = h_array(ev, [x], {}, fr, node)
+    if isinstance(x, NdArr):
+        return x.map(lambda e: h_quantity(ev, [e] + list(args[1:]), kwargs, fr, node, angle))
+    if not isinstance(x, Num):
+        ev.unsupported(f"Quantity({x!r})", node, fr)
+    if isinstance(unit, NoneV):
+        if x.kind == "quantity":
+            return x
+        return x.like(x.expr, kind="quantity", unit=sp.Integer(1))
+    ue = unit_of(ev, unit, node)
+    if x.kind in ("quantity", "time"):
+        dimension_check(ev, x.expr, ue, f"Quantity(..., {ue})", node)
+        return x.like(x.expr, kind="quantity", unit=ue)
+    return x.like(x.expr * ue, kind="quantity", unit=ue)
+
+
+def h_npall(ev, args, kwargs, fr, node, any_=False):
+    x = args[0]
+    if isinstance(x, (BoolV, CondV)):
+        return x
+    if isinstance(x, NdArr):
+        return h_all(ev, [ListV(x.items)], {}, fr, node, any_=any_)
+    if isinstance(x, Num):
+        t = ev.truth(x, fr, node)
+        return BoolV(t) if t in (True, False) else CondV(t)
+    ev.unsupported(f"np.all of {x!r}", node, fr)
+
+
 def h_time(ev, args, kwargs, fr, node):
     x = args[0]
     if isinstance(x, Num) and x.kind == "time":
@@ -2055,6 +2107,10 @@ EXT = {
     "numpy.prod": h_prod, "math.prod": h_prod, "numpy.where": h_where, "numpy.bool_": h_bool_,
     "numpy.allclose": h_allclose, "numpy.isclose": h_allclose, "numpy.iscomplexobj": h_iscomplexobj,
     "numpy.fft.fftshift": _shift_like("FFTSHIFT"), "numpy.fft.ifftshift": _shift_like("IFFTSHIFT"),
+    "astropy.units.Quantity": h_quantity, "astropy.coordinates.Angle": lambda ev, a, k, fr, n: h_quantity(ev, a, k, fr, n, angle=True),
+    "astropy.coordinates.Longitude": lambda ev, a, k, fr, n: h_quantity(ev, a, k, fr, n, angle=True),
+    "numpy.count_nonzero": lambda ev, a, k, fr, n: Num(sp.Function("CountNonzero")(a[0].expr)),
+    "numpy.all": h_npall, "numpy.any": lambda ev, a, k, fr, n: h_npall(ev, a, k, fr, n, any_=True),
     "astropy.time.Time": h_time, "astropy.time.Time.isclose": h_isclose_time,
     "astropy.units.isclose": h_isclose_q, "astropy.units.allclose": h_isclose_q,
     "dask.delayed": h_delayed, "dask.base.tokenize": h_tokenize, "dask.tokenize": h_tokenize, "dask.array.from_delayed": h_from_delayed, "dask.array.map_blocks": h_map_blocks,
@@ -2078,9 +2134,28 @@ EXC_NAMES = {"ValueError", "TypeError", "IndexError", "KeyError", "AttributeErro
              "EOFError", "NotImplementedError", "RuntimeError", "OSError", "ImportError", "StopIteration"}
 
 
+NP_UFUNCS = {"add": (2, 1), "subtract": (2, 1), "multiply": (2, 1), "divide": (2, 1), "true_divide": (2, 1), "floor_divide": (2, 1),
+             "remainder": (2, 1), "mod": (2, 1), "divmod": (2, 2), "negative": (1, 1), "positive": (1, 1), "fabs": (1, 1),
+             "rint": (1, 1), "tan": (1, 1), "spacing": (1, 1), "equal": (2, 1), "not_equal": (2, 1), "less": (2, 1),
+             "less_equal": (2, 1), "greater": (2, 1), "greater_equal": (2, 1), "matmul": (2, 1), "modf": (1, 2)}
+
+
 def call_ext(ev, fn: ExtV, args, kwargs, fr, node):
     d = fn.dotted
     ev.__dict__.setdefault("api_used", set()).add(d)
+    if d.startswith("numpy.") and d[6:] in NP_UFUNCS and (d not in EXT or any(isinstance(a, ObjV) for a in args)):
+        nin, nout = NP_UFUNCS[d[6:]]
+        uf = ExtV(f"ufunc:{d[6:]}:{nin}:{nout}")
+        objs = [a for a in args if isinstance(a, ObjV)] + [v for v in ([kwargs.get("out")] if isinstance(kwargs.get("out"), ObjV) else [])]
+        if objs:
+            m = objs[0].cls.find_method("__array_ufunc__")
+            if m is None:
+                ev.unsupported("ufunc applied to an object without __array_ufunc__", node, fr)
+            kw = dict(kwargs)
+            if "out" in kw and not isinstance(kw["out"], (TupleV, NoneV)):
+                kw["out"] = TupleV([kw["out"]])       # numpy always passes out as a tuple
+            return ev.call(m, [uf, StrV("__call__")] + list(args), kw, self_val=objs[0], depth=fr.depth + 1)
+        return call_ext(ev, uf, args, kwargs, fr, node)
     if d.startswith("ufunc:"):
         _, name, nin, nout = d.split(":")
         ev.trace.append(("ufunc-call", name, list(args), dict(kwargs), node))
